@@ -185,9 +185,12 @@ class DistributedNetwork(BaseManager):
         # distributed connections except for children and the parent connection
         # Other distributed connection from the parent that we have should also
         # be disconnected
+        # A connection on which the parent itself is our child gets disconnected
+        # as well: the peer cannot be above and below us at the same time
+        children = [child for child in self.children if child.username != peer.username]
         distributed_connections = [
             dpeer.connection for dpeer in self.distributed_peers
-            if dpeer in [self.parent, ] + self.children
+            if dpeer in [self.parent, ] + children
         ]
 
         disconnect_tasks = []
